@@ -35,7 +35,7 @@ import (
 
 const serverName = "dns.example"
 
-var ignoreLists = [][]string{nil, {"ignored.test"}, {"||ignored.test^"}, {"*.ignored.test"}, {"|.^"}, {"Ignored.TEST"}}
+var ignoreLists = [][]string{nil, {"ignored.test", "zz.ignored.test"}, {"||ignored.test^"}, {"*.ignored.test"}, {"|.^"}, {"Ignored.TEST"}}
 
 type config struct {
 	QLogIgnore  []string `json:"querylog_ignore"`
